@@ -1046,7 +1046,7 @@ class Node(object):
         except: pass
 #       node.nodeValue = self.nodeValue
 #       node.nodeType = self.nodeType
-        node.parentNode = self.parentNode
+        node.parentNode = None
         node.ownerDocument = self.ownerDocument
         if deep:
             if node.attributes is not None and self.attributes is not None:
@@ -1057,9 +1057,6 @@ class Node(object):
         else:
             if node.attributes is not None and self.attributes is not None:
                 node.attributes.update(self.attributes)
-            if self.hasChildNodes():
-                for x in self.childNodes:
-                    node.append(x)
         return node
 
     def normalize(self, charsubs=None):
@@ -1679,7 +1676,7 @@ class CharacterData(str, Node):
     def cloneNode(self, deep=True):
         o = type(self)(self)
         o.ownerDocument = self.ownerDocument
-        o.parentNode = self.parentNode
+        o.parentNode = None
         return o
 
     @property
